@@ -176,6 +176,41 @@ func withRand(buf []byte, failAt int, f func()) *detReader {
 
 var _ io.Reader = (*detReader)(nil)
 
+// chunkReader delivers the same octet stream as detReader but in pieces: every Read returns at most `max` octets
+// with a nil error (what io.Reader allows), and, if failAfter >= 0, an error once that many octets were served
+// (a short read followed by a failure)
+type chunkReader struct {
+	buf       []byte
+	pos       int
+	max       int
+	failAfter int
+}
+
+func (r *chunkReader) Read(p []byte) (int, error) {
+	if r.failAfter >= 0 && r.pos >= r.failAfter {
+		return 0, errInjected
+	}
+	n := len(p)
+	if n > r.max {
+		n = r.max
+	}
+	if r.failAfter >= 0 && r.pos+n > r.failAfter {
+		n = r.failAfter - r.pos
+	}
+	for i := 0; i < n; i++ {
+		p[i] = r.buf[r.pos%len(r.buf)]
+		r.pos++
+	}
+	return n, nil
+}
+
+func withChunkRand(buf []byte, max, failAfter int, f func()) {
+	old := crand.Reader
+	crand.Reader = &chunkReader{buf: buf, max: max, failAfter: failAfter}
+	defer func() { crand.Reader = old }()
+	f()
+}
+
 // ---------------------------------------------------------------------------
 // spy cipher: counts Decrypt calls
 
